@@ -819,10 +819,33 @@ def import_rule(vm, tree=None):
     expression statement, anything else); the rule is "before-first-non-prologue" when the first two... the first and the
     third `continue` and the others insert at the loop index and `break`."""
     loops = [n for n in vm.body if isinstance(n, ast.For)]
+    body_expr = "node.body"
+    ret_mode = False
+    if len(loops) == 0 and tree is not None:
+        # the index is computed by a module-level helper: `i = H(node.body)`, `if i is not None: node.body.insert(i, <import jaxtyping>)`,
+        # with `def H(body): for i, s in enumerate(body): ... return i ...; return None` — the helper's loop is the loop, its
+        # `return i` is "insert at i and stop"
+        fns = {n.name: n for n in tree.body if isinstance(n, ast.FunctionDef)}
+        calls = [n for n in vm.body if isinstance(n, ast.Assign) and len(n.targets) == 1 and isinstance(n.targets[0], ast.Name) and isinstance(n.value, ast.Call)
+                 and isinstance(n.value.func, ast.Name) and n.value.func.id in fns and [ast.unparse(a) for a in n.value.args] == ["node.body"] and not n.value.keywords]
+        if len(calls) != 1:
+            return "unknown"
+        x = calls[0].targets[0].id
+        h = fns[calls[0].value.func.id]
+        hb = [st for st in h.body if not (isinstance(st, ast.Expr) and isinstance(st.value, ast.Constant))]
+        uses = [n for n in vm.body if isinstance(n, ast.If) and ast.unparse(n.test) == f"{x} is not None" and not n.orelse and len(n.body) == 1
+                and isinstance(n.body[0], ast.Expr) and isinstance(n.body[0].value, ast.Call) and ast.unparse(n.body[0].value.func) == "node.body.insert"
+                and len(n.body[0].value.args) == 2 and ast.unparse(n.body[0].value.args[0]) == x
+                and "ast.Import" in ast.unparse(n.body[0].value.args[1]) and "jaxtyping" in ast.unparse(n.body[0].value.args[1])]
+        others = [n for n in ast.walk(vm) if isinstance(n, ast.Attribute) and ast.unparse(n) == "node.body"]
+        if len(uses) != 1 or len(others) != 2 or len(h.args.args) != 1 or h.decorator_list or len(hb) != 2 or not isinstance(hb[0], ast.For) \
+                or not (isinstance(hb[1], ast.Return) and (hb[1].value is None or (isinstance(hb[1].value, ast.Constant) and hb[1].value.value is None))):
+            return "unknown"
+        loops, body_expr, ret_mode = [hb[0]], h.args.args[0].arg, True
     if len(loops) != 1:
         return "unknown"
     lp = loops[0]
-    if not (isinstance(lp.iter, ast.Call) and call_name(lp.iter) == "enumerate" and len(lp.iter.args) == 1 and ast.unparse(lp.iter.args[0]) == "node.body"
+    if not (isinstance(lp.iter, ast.Call) and call_name(lp.iter) == "enumerate" and len(lp.iter.args) == 1 and ast.unparse(lp.iter.args[0]) == body_expr
             and isinstance(lp.target, ast.Tuple) and len(lp.target.elts) == 2 and all(isinstance(e, ast.Name) for e in lp.target.elts)) or lp.orelse:
         return "unknown"
     idx, var = lp.target.elts[0].id, lp.target.elts[1].id
@@ -896,6 +919,9 @@ def import_rule(vm, tree=None):
             if isinstance(st, ast.Continue):
                 return "continue"
             if isinstance(st, ast.Break):
+                return "break"
+            if isinstance(st, ast.Return) and ret_mode and isinstance(st.value, ast.Name) and st.value.id == idx:
+                acts.append(("insert", idx, True))      # the caller inserts the import at the index handed back
                 return "break"
             if isinstance(st, ast.If):
                 r = run(st.body if ev(st.test, kind, env) else st.orelse, kind, env, acts)
@@ -1095,6 +1121,13 @@ def hook_facts(facts):
                     if isinstance(a, ast.Constant) and str(a.value).endswith("Typechecker.lookup['") and isinstance(b, ast.FormattedValue) \
                             and ast.unparse(b.value) == "self.hash" and b.format_spec is None and b.conversion == -1 \
                             and isinstance(c, ast.Constant) and str(c.value).startswith("']"):
+                        emb = True
+            # ... or a module-level template filled with `.format(self.hash)`: one placeholder, between the quotes of the subscript
+            for c in [n for f_ in scope_fns for n in ast.walk(f_) if isinstance(n, ast.Call)]:
+                if isinstance(c.func, ast.Attribute) and c.func.attr == "format" and isinstance(c.func.value, ast.Name) and c.func.value.id in env \
+                        and isinstance(env[c.func.value.id].value, str) and len(c.args) == 1 and not c.keywords and ast.unparse(c.args[0]) == "self.hash":
+                    text = env[c.func.value.id].value
+                    if text.count("{}") == 1 and text.count("{") == 1 and "Typechecker.lookup['{}']" in text:
                         emb = True
         stores = [n for n in ast.walk(init_) if isinstance(n, ast.Assign) and isinstance(n.targets[0], ast.Subscript)
                   and ast.unparse(n.targets[0].value).endswith("lookup")] if init_ is not None else []
